@@ -59,107 +59,7 @@ ENC = ("BuildAssembly.remap_to_input_assembly", "BuildAssembly.find_assembly_ove
        "ScaffoldNamer.*", "ChrNamer.*", "Assembly.smart_sort_scaffolds", "AssemblyStats.make_stats", "format.format_agp")
 
 
-def _len_args(specs, sym_strands):
-    """sym_strands: True (symbolic contig strands), False (all forward) or a
-    tuple of concrete strands, one per contig in order"""
-    args, pre, spec_src = [], [], []
-    ci = 0
-    for si, (sname, kinds) in enumerate(specs):
-        lens, sts = [], []
-        for ri, k in enumerate(kinds):
-            v = f"{'l' if k == 'F' else 'g'}{si}_{ri}"
-            args.append(f"{v}: int")
-            pre.append(f"{v} >= 1")
-            lens.append(v)
-            if k == "F":
-                if sym_strands is True:
-                    sv = f"cs{si}_{ri}"
-                    args.append(f"{sv}: bool")
-                    sts.append(f"(1 if {sv} else -1)")
-                elif sym_strands:
-                    sts.append(str(sym_strands[ci]))
-                ci += 1
-        spec = f'("{sname}", "{kinds}", ({", ".join(lens)},)' + (f', ({", ".join(sts)},))' if sym_strands else ")")
-        spec_src.append(spec)
-    return args, pre, spec_src
-
-
-def _pstrand(i, pstrands, args):
-    if pstrands is None:
-        args.append(f"ps{i}: bool")
-        return f"(1 if ps{i} else -1)"
-    return str(pstrands[i])
-
-
-def gen_arbitrary(name, specs, pieces, sym_strands=True, region=None, tags=None, fasta_like=False, pstrands=None):
-    """pieces: list of (pretext group index, input scaffold name).  Every piece
-    [a_i, b_i] is an arbitrary interval (1 <= a <= b) with symbolic strand."""
-    args, pre, spec_src = _len_args(specs, sym_strands)
-    groups = {}
-    for i, (gi, iname) in enumerate(pieces):
-        args += [f"a{i}: int", f"b{i}: int"]
-        pse = _pstrand(i, pstrands, args)
-        pre.append(f"1 <= a{i} <= b{i}")
-        tg = tags[i] if tags else ()
-        groups.setdefault(gi, []).append(f'("{iname}", a{i}, b{i}, {pse}, {tuple(tg)!r})')
-    args.append("tf: int")
-    pre.append("tf >= 1")
-    if region:
-        pre += region
-    gsrc = ", ".join(f'("Scaffold_{gi + 1}", [{", ".join(ps)}])' for gi, ps in sorted(groups.items()))
-    pre_txt = "\n".join(f"    pre: {p}" for p in pre)
-    return f'''
-
-def {name}({", ".join(args)}) -> bool:
-    """
-{pre_txt}
-    post: _
-    """
-    return conserve([{", ".join(spec_src)}], [{gsrc}], tf, {fasta_like})
-'''
-
-
-def gen_model(name, specs, plan, sym_strands=True, tags=None, fasta_like=False, pstrands=None):
-    """PretextView-model map.  plan: per input scaffold index a number of cuts
-    (0, 1 or 2) and the arrangement: list of (pretext group, scaffold index,
-    piece index) in Pretext order.  Cut positions, end rounding, piece strands
-    and the texel are symbolic (DESIGN section 4 integer abstraction)."""
-    ncuts, arrangement = plan
-    args, pre, spec_src = _len_args(specs, sym_strands)
-    piece_expr = {}
-    for si, (sname, kinds) in enumerate(specs):
-        total = " + ".join(f"{'l' if k == 'F' else 'g'}{si}_{ri}" for ri, k in enumerate(kinds))
-        args.append(f"d{si}: int")
-        pre.append(f"-(tf - 1 + fr) <= d{si} <= tf - 1 + fr")
-        end = f"({total} + d{si})"
-        bounds = ["0"]
-        for c in range(ncuts[si]):
-            args.append(f"c{si}_{c}: int")
-            bounds.append(f"c{si}_{c}")
-        bounds.append(end)
-        for pi in range(len(bounds) - 1):
-            lo, hi = bounds[pi], bounds[pi + 1]
-            pre.append(f"{hi} - {lo} >= 2 * tf")            # every piece at least two texels
-            piece_expr[(si, pi)] = (sname, f"{lo} + 1", hi)
-    groups = {}
-    for i, (gi, si, pi) in enumerate(arrangement):
-        sname, lo, hi = piece_expr[(si, pi)]
-        pse = _pstrand(i, pstrands, args)
-        tg = tags[i] if tags else ("Painted",)
-        groups.setdefault(gi, []).append(f'("{sname}", {lo}, {hi}, {pse}, {tuple(tg)!r})')
-    args += ["tf: int", "fr: int"]
-    pre = ["tf >= 1 and 0 <= fr <= 1"] + pre
-    gsrc = ", ".join(f'("Scaffold_{gi + 1}", [{", ".join(ps)}])' for gi, ps in sorted(groups.items()))
-    pre_txt = "\n".join(f"    pre: {p}" for p in pre)
-    return f'''
-
-def {name}({", ".join(args)}) -> bool:
-    """
-{pre_txt}
-    post: _
-    """
-    return conserve([{", ".join(spec_src)}], [{gsrc}], tf, {fasta_like})
-'''
+from vlib.props.pgen import gen_arbitrary, gen_model, sfx as _sfx, variants as _variants  # noqa: E402
 
 
 def gen_qc(k):
@@ -209,17 +109,6 @@ def lemma_regions_cover():
 
 S_FGF = [("S1", "FGF")]
 S_FGFGF = [("S1", "FGFGF")]
-
-
-def _sfx(cs, ps):
-    f = lambda t: "".join("p" if x == 1 else "m" for x in t)  # noqa: E731
-    return f"c{f(cs)}_b{f(ps)}"
-
-
-def _variants(nctg, npieces):
-    for cs in itertools.product((1, -1), repeat=nctg):
-        for ps in itertools.product((1, -1), repeat=npieces):
-            yield cs, ps
 
 
 def conditions(tier):
